@@ -119,6 +119,11 @@ fn read_source_files(
     if input_files.is_empty() {
         return Err(compile_error("no input files provided".to_string()));
     }
+    if package == "Builtin" {
+        return Err(compile_error(
+            "package name Builtin is reserved for the builtin package".to_string(),
+        ));
+    }
 
     let mut paths = input_files.to_vec();
     paths.sort();
